@@ -52,7 +52,9 @@ def worker(pid, tier, seed, shard, nshards, outpath):
         "samples": [],
     }
     kept = {}
-    deadline = time.time() + float(os.environ.get("VERIF_WORKER_BUDGET", "1e9"))
+    # a worker stops taking new cases after its budget (counted as budget_stops, never silently)
+    default_budget = getattr(mod, "WORKER_BUDGET", {}).get(tier, 600 if tier == "quick" else 5400)
+    deadline = time.time() + float(os.environ.get("VERIF_WORKER_BUDGET", default_budget))
     for case in iter_cases(mod, tier, seed, shard, nshards):
         if time.time() > deadline:
             out["counters"]["budget_stops"] = out["counters"].get("budget_stops", 0) + 1
@@ -162,8 +164,11 @@ def decide(mod, pid, agg, known, tier):
             "KNOWN-FINDING: property=%s %s: %s"
             % (pid, fid, common.short(v.get("witness") or v["detail"], 200).replace("\n", "\\n"))
         )
+    rdir = os.path.join(HERE, "replays", pid)
+    if os.path.isdir(rdir):
+        for fn in os.listdir(rdir):  # replays of earlier runs are stale
+            os.remove(os.path.join(rdir, fn))
     if unlisted:
-        rdir = os.path.join(HERE, "replays", pid)
         os.makedirs(rdir, exist_ok=True)
         for (kind, fid), vs in sorted(unlisted.items(), key=lambda kv: str(kv[0])):
             vs.sort(key=lambda v: len(json.dumps(common.jsonable(v["case"]))))
